@@ -46,7 +46,10 @@ RULE = ("generated directories: 1-3 species present in a start-resolution system
         "'ambiguous' directories (ON by default): candidates in sub-folders with equal base names (cg/X.itp, aa/X.itp, old/X.itp), "
         "two end topologies with the species' name, two pairing end coordinate files, a stale mapped_<name> output, a second "
         "start topology, the same file listed under absolute and relative spellings - there K compares the exact winner "
-        "(first in sorted full-path order) and S demands determinism and membership only. "
+        "(first in sorted full-path order) and S demands determinism and membership only; near-miss distractor topologies "
+        "(another molecule with the residue name(s) and atoms per residue of a real species but one different atom name, sorting "
+        "before or after the genuine start topology; in the ambiguous stream also an alias with identical atom names); explicit "
+        "species whose files are listed again under another spelling (./x, relative) and/or as copies. "
         "Every permutation of the candidate list when it has <= 5 (quick) / <= 6 (thorough) files, sampled otherwise; "
         "hash seeds in subprocesses.  A case is non-trivial when its (directory descriptor, order) is distinct and the "
         "directory contains at least one discoverable species.")
@@ -1336,6 +1339,15 @@ def correspondence(ctx):
                 desc["files"].append({"name": "copy_of_" + mol[0][0], "kind": "top",
                                       "mol": [n for n in names if triples[n][0] == mol[0][0]][0], "res": "cg"})
                 auto.append("copy_of_" + mol[0][0])
+        # a near-miss distractor that sorts before the genuine start topology of a species that must be discovered
+        if auto is not None:
+            given = {t[0] for t in mol}
+            cand = [n for n in names if triples[n][0] not in given and not (excl and n in excl)]
+            if cand:
+                ps = near_miss(rs, species_of(desc, cand[0]), "r")
+                desc["species"].append(ps)
+                desc["files"].append({"name": "0_" + triples[cand[0]][0], "kind": "top", "mol": ps["name"], "res": "cg"})
+                auto.append("0_" + triples[cand[0]][0])
         d = materialize(desc, os.path.join(root(), "m%d" % k))
         scale = [None, 0.5, 0.8, 1.0][int(rs.randint(0, 4))]
         form, out_mode = combos[k % len(combos)]      # every (input path form, output mode) pair at least once
